@@ -115,10 +115,11 @@ CLAIMED = {
             "exactly n rows (each path once); price = df*notional*mean; squared error = unbiased variance / n per component (the pre-fix "
             "/(n*d) as witness); control variates: mean of Y - b(X - price_X) equals the raw mean when the controls' sample means equal "
             "their prices, for any number of controls and any coefficients; with one control and the regression coefficient as coded "
-            "(incl. the fallback b*=0) the adjusted sample variance and reported error never exceed the raw ones. Correspondence: the real "
+            "(incl. the fallback b*=0) the adjusted sample variance and reported error never exceed the raw ones, and for any number of "
+            "controls the adjusted variance is var Y - var(sum b_j X_j) <= var Y whenever the coefficients solve the normal equations. Correspondence: the real "
             "standard engine driven by a scripted process with prescribed dyadic paths vs the model's exact rational statistics; textbook "
             "oracles on the implementation.",
-            "Variance reduction with k >= 2 controls is only oracle-checked; numpy kernels compared, not proved.",
+            "That numpy.linalg.pinv yields coefficients solving the normal equations is oracle-checked (residual), not proved; numpy kernels compared.",
             "Lean 4 proof (finite-sum algebra) + differential correspondence on scripted engine runs",
             "DESIGN.md §4 C07"),
     "C08": ("Lean 4 theorems about a token model of the generators (seeding re-enters the stream of that seed at position 0): for every "
